@@ -333,6 +333,9 @@ func (fi *FuncInfo) objClass0(v ssa.Value) Class {
 			if !have {
 				res, have = c, true
 			} else if res.String() != c.String() {
+				if res.IsLocal() && c.IsLocal() {
+					continue // different fresh allocations of this function: still local
+				}
 				return Class{Root: "O:" + v.Type().String()}
 			}
 		}
